@@ -201,6 +201,12 @@ def probes():
         "md20_default_ms": bool(re.search(r'"created": "[^"]*\.\d{3}Z"', stix2.v20.MarkingDefinition(
             definition_type="statement", definition={"statement": "s"}).serialize())),
         "d2s_ext_nondict": exc_of(lambda: stix2.parse({"type": "x-unknown-type", "id": "x-unknown-type--" + u, "extensions": "abc"})),
+        # C02: characters outside the base64 alphabet are skipped by the lenient decoder
+        "b64_garbage": acc(lambda: P.BinaryProperty().clean("aGVs bG8=")),
+        # C02: DictionaryProperty does not look at the values
+        "dict_null_value": acc(lambda: P.DictionaryProperty(spec_version="2.1").clean({"abc": None})),
+        # detect_spec_version on a dictionary without `type` (3b082cc: ParseError)
+        "detect_notype": exc_of(lambda: stix2.utils.detect_spec_version({})),
     }
 
 
@@ -227,6 +233,9 @@ def pyify(x):
                 return datetime.datetime(*items)
             if tag == "date":
                 return datetime.date(*items[:3])
+            if tag == "stix":
+                # an already constructed object of a library class (possibly built with allow_custom)
+                return find_class(x["cid"])(allow_custom=x.get("allow", False), **pyify(x.get("kwargs", {})))
             raise ValueError(tag)
         return {k: pyify(v) for k, v in x.items()}
     if isinstance(x, list):
@@ -236,9 +245,9 @@ def pyify(x):
 
 def run(case):
     op = case["op"]
-    if case.get("py"):
-        case = dict(case, data=pyify(case["data"]))
     try:
+        if case.get("py"):
+            case = dict(case, data=pyify(case["data"]))
         if op == "probes":
             return probes()
         if op == "parse":
